@@ -468,6 +468,28 @@ def m_iter_chain(ex, callee, args, ret_ty, frame):
     return VIter(VSeq("?", len(items), items, ex.new_vid()), 0, None, "owned")
 
 
+def m_iter_unzip(ex, callee, args, ret_ty, frame):
+    """Iterator::unzip over pairs: two vectors with the first / second components in order"""
+    items = drain(ex, args[0], frame)
+    a, b = [], []
+    for it in items:
+        if not isinstance(it, VTuple) or len(it.items) != 2:
+            return NOT_HANDLED
+        a.append(it.items[0])
+        b.append(it.items[1])
+    m = re.search(r"::unzip::<(.+)>$", callee)
+    tys = mp.split_top(m.group(1)) if m else ["?", "?"]
+    return VTuple([VSeq(norm_ty(tys[0]), len(a), a, ex.new_vid()), VSeq(norm_ty(tys[1]) if len(tys) > 1 else "?", len(b), b, ex.new_vid())])
+
+
+def m_iter_flatten(ex, callee, args, ret_ty, frame):
+    """Iterator::flatten: eager concatenation of the inner iterators, in order"""
+    out = []
+    for inner in drain(ex, args[0], frame):
+        out += drain(ex, inner, frame)
+    return VIter(VSeq("?", len(out), out, ex.new_vid()), 0, None, "owned")
+
+
 def m_option_eq(ex, callee, args, ret_ty, frame):
     """<Option<T> as PartialEq>::eq / ne: None == None; Some(x) == Some(y) iff x == y by T's own PartialEq"""
     a, b = deref(ex, args[0]), deref(ex, args[1])
@@ -749,6 +771,8 @@ BUILTIN = [
     (r"^<Option<.*> as PartialEq>::(eq|ne)$", m_option_eq),
     (r"^<Vec<.*> as Extend<.*>>::extend::<", m_vec_extend),
     (r"^<.+ as Iterator>::collect::<Vec<.*>>$", m_collect_vec),
+    (r"^<.+ as Iterator>::unzip::<", m_iter_unzip),
+    (r"^<.+ as Iterator>::flatten$", m_iter_flatten),
     (r"^<.+ as Iterator>::collect::<[A-Z]\w*>$", m_collect_any),
     (r"^HashSet(::)?(<.*>)?::new$", m_set_new),
     (r"^HashSet(::)?(<.*>)?::insert$", m_set_insert),
